@@ -6,7 +6,7 @@
 From Coq Require Import ZArith Bool List Lia Arith.
 From MomoCommon Require Import GenPrelude.
 From C10 Require Import Machine Merge MergeProofs FastMerge.
-From C10 Require Gen_StdInsert Gen_StdInsertU Gen_MergeTo.
+From C10 Require Gen_StdInsert Gen_StdInsertU Gen_StdInsertN Gen_MergeTo Gen_TreeSwap Gen_ExtraCheckT Gen_ExtraCheckH.
 Import ListNotations.
 Local Open Scope Z_scope.
 
@@ -153,3 +153,62 @@ Proof.
   destruct (Z.ltb (key (last (x :: xs) 0)) (key (hd 0 (y :: ys)))); [reflexivity|].
   unfold heur. destruct (Nat.ltb _ _); reflexivity.
 Qed.
+
+(* ---------------------------------------------------------------- TreeSet::Swap (generated) and the swap path of MergeTo
+   (c7fda03: merging into an EMPTY destination swaps the whole sets -- crew together with count, root and node params; the
+   node pools keep a pointer to the memory manager stored in the crew, so swapping the params without the crews dangles) *)
+Theorem gen_tree_swap_exchanges_all_four_fields crew cnt root params crew' cnt' root' params' :
+  Gen_TreeSwap.Swap crew cnt root params crew' cnt' root' params' = (crew', cnt', root', params', crew, cnt, root, params).
+Proof. reflexivity. Qed.
+
+(* on that path the generated MergeTo does nothing but call Swap(dstTreeSet) on the whole objects: it writes none of the four
+   fields itself (a member-wise swap inside MergeTo, as before c7fda03, changes the generated function's shape and type) *)
+Theorem gen_merge_to_swap_path multi x xs :
+  Z.of_nat (length (x :: xs)) < 2 ^ 32 ->
+  let '(c1, r1, c2, r2, path) := gen_merge_to multi true true (x :: xs) [] in
+  path = 3 /\ c1 = Z.of_nat (length (x :: xs)) /\ r1 = 7 /\ c2 = 0 /\ r2 = 8.
+Proof.
+  intros B. pose proof (gen_merge_to_refines multi true true (x :: xs) []) as G. simpl length in *. rewrite Z.add_0_r in G. specialize (G B).
+  destruct (gen_merge_to multi true true (x :: xs) []) as [[[[c1 r1] c2] r2] path].
+  destruct G as (P & _ & N). simpl in P. subst path. destruct (N ltac:(discriminate)) as (A1 & A2 & A3 & A4). auto.
+Qed.
+
+(* ---------------------------------------------------------------- pvExtraCheck (generated, HashSet.h:1025-1036, TreeSet.h:1109-1124;
+   b307610): the try block wraps ONLY the re-computation of the check; when a user functor (hash / equality / less) throws
+   inside it the handler answers "check passed", so the debug-only MOMO_EXTRA_CHECK never turns the exception into an
+   assertion failure and the work completed before the check (the inserted item) is left alone *)
+Theorem gen_extra_check_tolerates_throwing_functor_hash pos_eqb deref find_ key_ pos :
+  Gen_ExtraCheckH.pvExtraCheck true pos_eqb deref find_ key_ pos = true.
+Proof. reflexivity. Qed.
+
+Theorem gen_extra_check_tolerates_throwing_functor_tree it_neqb it_begin it_end it_prev it_next is_ordered_ iter :
+  Gen_ExtraCheckT.pvExtraCheck true it_neqb it_begin it_end it_prev it_next is_ordered_ iter = true.
+Proof. reflexivity. Qed.
+
+(* InsertCrt = pvInsert; MOMO_EXTRA_CHECK(!extraCheck || pvExtraCheck(pos)): Stuck = a failed assertion *)
+Definition insert_crt_checked {S} (after_add : S) (check_result : bool) : outcome S := if check_result then Ok after_add else Stuck.
+
+Theorem insert_crt_never_aborts_on_throwing_functor {S} (after_add : S) pos_eqb deref find_ key_ pos :
+  insert_crt_checked after_add (Gen_ExtraCheckH.pvExtraCheck true pos_eqb deref find_ key_ pos) = Ok after_add.
+Proof. reflexivity. Qed.
+
+(* without a throw the generated check is the genuine check *)
+Theorem gen_extra_check_is_the_check_hash pos_eqb deref find_ key_ pos :
+  Gen_ExtraCheckH.pvExtraCheck false pos_eqb deref find_ key_ pos = pos_eqb pos (find_ (key_ (deref pos))).
+Proof. reflexivity. Qed.
+
+(* ---------------------------------------------------------------- stdish set::insert(node_type&&) (generated, set.h:457-464):
+   result = { position, inserted, node }.  An empty handle gives { end(), false, empty }; otherwise the extracted item goes to
+   the nested Insert and the THIRD component is empty when the item was inserted and the caller's node (moved) when it was
+   refused: the handle is never dropped, a refused element travels back to the caller inside the result *)
+Theorem gen_std_insert_node_spec it_end nh_empty nh_item mv_ pos_of ts_insert inserted_of mTreeSet mSelf node :
+  Gen_StdInsertN.insert_node it_end nh_empty nh_item mv_ pos_of ts_insert inserted_of mTreeSet mSelf node =
+  if nh_empty node then (it_end, false, 0)
+  else let res := ts_insert mTreeSet (mv_ (nh_item node)) in
+       (pos_of res, inserted_of res, if inserted_of res then 0 else mv_ node).
+Proof. reflexivity. Qed.
+
+Theorem gen_std_insert_node_refused_comes_back it_end nh_empty nh_item mv_ pos_of ts_insert inserted_of mTreeSet mSelf node :
+  nh_empty node = false -> inserted_of (ts_insert mTreeSet (mv_ (nh_item node))) = false ->
+  snd (Gen_StdInsertN.insert_node it_end nh_empty nh_item mv_ pos_of ts_insert inserted_of mTreeSet mSelf node) = mv_ node.
+Proof. intros E I. rewrite gen_std_insert_node_spec, E. simpl. rewrite I. reflexivity. Qed.
